@@ -17,6 +17,7 @@ mod ast;
 mod builder;
 mod checks;
 mod classes;
+mod cmpd;
 mod consumer;
 mod corpus;
 mod driver;
